@@ -1,5 +1,759 @@
-import GnpyModel.Scalar
-/- model file Xls (see DESIGN.md §2) -/
-namespace Gnpy
+import GnpyModel.Json
+import GnpyModel.Round
+/-
+Workbook rows -> network elements and connections (gnpy/tools/convert.py), service rows -> request
+dictionaries and synchronisation vectors (gnpy/tools/service_sheet.py)  (C20).
 
-end Gnpy
+Two layers:
+* cell layer (`mkNode`, `mkLink`, `mkEqpt`, `mkRoadmRow`, `mkRequest`): the keyword dictionaries that
+  `parse_sheet` yields (header name -> cell value, `null` for an empty cell) become typed rows, with
+  the defaulting rules of the `update_attr` methods (a Link's west side defaults to its east side, an
+  Eqpt's west side does NOT);
+* row layer (`convert`): `parse_excel`'s and `sanity_check`'s rejections, the degree correction, and
+  the element / connection lists of `xls_to_json_data`, built over *structured names* (`Name`) and
+  rendered to GNPy's uid strings at the end (`Name.render`), so that the theorems about wiring do
+  not depend on string manipulation.
+-/
+namespace Gnpy.Xls
+open Gnpy
+
+/-! ### names -/
+
+inductive Name where
+  | trx (c : String)            -- 'trx c'
+  | roadm (c : String)          -- 'roadm c'
+  | fusedW (c : String)         -- 'west fused spans in c'
+  | fusedE (c : String)         -- 'east fused spans in c'
+  | fiber (src dst cable : String)  -- 'fiber (src → dst)-cable'
+  | ilaW (c : String)           -- 'west edfa in c'
+  | ilaE (c : String)           -- 'east edfa in c'
+  | eqE (a z : String)          -- 'east edfa in a to z'
+  | eqW (a z : String)          -- 'west edfa in a to z'
+  deriving DecidableEq, Repr, Inhabited
+
+def Name.render : Name → String
+  | .trx c => s!"trx {c}"
+  | .roadm c => s!"roadm {c}"
+  | .fusedW c => s!"west fused spans in {c}"
+  | .fusedE c => s!"east fused spans in {c}"
+  | .fiber s d cable => s!"fiber ({s} → {d})-{cable}"
+  | .ilaW c => s!"west edfa in {c}"
+  | .ilaE c => s!"east edfa in {c}"
+  | .eqE a z => s!"east edfa in {a} to {z}"
+  | .eqW a z => s!"west edfa in {a} to {z}"
+
+/-! ### typed rows -/
+
+structure Node where
+  city : String
+  region : J
+  lat : J
+  lon : J
+  ntype : String
+  booster : String
+  preamp : String
+  deriving Repr, Inhabited
+
+structure LinkSide where
+  distance : J
+  fiber : J
+  lineic : J
+  conIn : J
+  conOut : J
+  pmd : J
+  cable : String
+  deriving Repr, Inhabited
+
+structure Link where
+  a : String
+  z : String
+  east : LinkSide
+  west : LinkSide
+  deriving Repr, Inhabited
+
+structure EqptSide where
+  ampType : String
+  gain : J
+  dp : J
+  tilt : J
+  attOut : J
+  attIn : J
+  deriving Repr, Inhabited
+
+structure Eqpt where
+  a : String
+  z : String
+  east : EqptSide
+  west : EqptSide
+  deriving Repr, Inhabited
+
+structure RoadmRow where
+  a : String
+  z : String
+  target : J
+  typeVariety : J
+  fromDegrees : J
+  impairmentIds : J
+  deriving Repr, Inhabited
+
+structure Table where
+  nodes : List Node
+  links : List Link
+  eqpts : List Eqpt
+  roadms : List RoadmRow
+  deriving Repr, Inhabited
+
+/-! ### cell layer -/
+
+/-- `clean_kwargs.get(k, default)`: empty string and None count as absent -/
+def cleanGet (kw : Dict) (k : String) (dflt : J) : J :=
+  match kw.get? k with
+  | none => dflt
+  | some .null => dflt
+  | some (.str "") => dflt
+  | some v => v
+
+/-- f-string rendering of a cell value used inside a uid -/
+def pyStr : J → String
+  | .str s => s
+  | .int i => toString i
+  | .bool true => "True"
+  | .bool false => "False"
+  | .null => "None"
+  | .flt b =>
+    -- repr of an integral float below 1e16 ('12.0'); other floats never occur in the generated names
+    match Round.fmtBits b 1 with
+    | some s => s
+    | none => "nan"
+  | _ => "?"
+
+def asStr (j : J) : String := pyStr j
+
+/-- `Node(**kw)` followed by the node-type normalisation of `parse_excel` -/
+def mkNode (kw : Dict) : Node :=
+  let t := asStr (cleanGet kw "node_type" (.str "ILA"))
+  { city := asStr (cleanGet kw "city" (.str "")),
+    region := cleanGet kw "region" (.str ""),
+    lat := cleanGet kw "latitude" (.int 0),
+    lon := cleanGet kw "longitude" (.int 0),
+    ntype := if t == "ROADM" || t == "ILA" || t == "FUSED" then t else "ILA",
+    booster := asStr (cleanGet kw "booster_restriction" (.str "")),
+    preamp := asStr (cleanGet kw "preamp_restriction" (.str "")) }
+
+/-- `Link(**kw)`: every west attribute defaults to the (possibly defaulted) east attribute -/
+def mkLink (kw : Dict) : Link :=
+  let e : LinkSide :=
+    { distance := cleanGet kw "east_distance" (.int 80),
+      fiber := cleanGet kw "east_fiber" (.str "SSMF"),
+      lineic := cleanGet kw "east_lineic" (.flt 4596373779694328218),   -- 0.2
+      conIn := cleanGet kw "east_con_in" .null,
+      conOut := cleanGet kw "east_con_out" .null,
+      pmd := cleanGet kw "east_pmd" .null,
+      cable := asStr (cleanGet kw "east_cable" (.str "")) }
+  let w : LinkSide :=
+    { distance := cleanGet kw "west_distance" e.distance,
+      fiber := cleanGet kw "west_fiber" e.fiber,
+      lineic := cleanGet kw "west_lineic" e.lineic,
+      conIn := cleanGet kw "west_con_in" e.conIn,
+      conOut := cleanGet kw "west_con_out" e.conOut,
+      pmd := cleanGet kw "west_pmd" e.pmd,
+      cable := asStr (cleanGet kw "west_cable" (.str e.cable)) }
+  { a := asStr (cleanGet kw "from_city" (.str "")), z := asStr (cleanGet kw "to_city" (.str "")),
+    east := e, west := w }
+
+/-- `Eqpt(**kw)`: the west attributes default to the class defaults, not to the east values -/
+def mkEqptSide (kw : Dict) (p : String) : EqptSide :=
+  { ampType := asStr (cleanGet kw (p ++ "_amp_type") (.str "")),
+    gain := cleanGet kw (p ++ "_amp_gain") .null,
+    dp := cleanGet kw (p ++ "_amp_dp") .null,
+    tilt := cleanGet kw (p ++ "_tilt_vs_wavelength") .null,
+    attOut := cleanGet kw (p ++ "_att_out") .null,
+    attIn := cleanGet kw (p ++ "_att_in") (.int 0) }
+
+def mkEqpt (kw : Dict) : Eqpt :=
+  { a := asStr (cleanGet kw "from_city" (.str "")), z := asStr (cleanGet kw "to_city" (.str "")),
+    east := mkEqptSide kw "east", west := mkEqptSide kw "west" }
+
+def mkRoadmRow (kw : Dict) : RoadmRow :=
+  { a := asStr (cleanGet kw "from_node" (.str "")), z := asStr (cleanGet kw "to_node" (.str "")),
+    target := cleanGet kw "target_pch_out_db" .null,
+    typeVariety := cleanGet kw "type_variety" .null,
+    fromDegrees := cleanGet kw "from_degrees" .null,
+    impairmentIds := cleanGet kw "impairment_ids" .null }
+
+/-! ### rejections -/
+
+inductive XErr where
+  | duplicateCity
+  | linkUnknownNode
+  | duplicateLink
+  | unreferencedNode
+  | eqptUnknownNode
+  | eqptUnknownLink
+  | duplicateEqpt
+  | duplicateIla
+  | impairmentMismatch
+  | py (kind : String)      -- a Python error that is not a NetworkTopologyError
+  deriving DecidableEq, Repr, Inhabited
+
+def XErr.isTopology : XErr → Bool
+  | .py _ => false
+  | _ => true
+
+abbrev XR := Except XErr
+
+def lower (s : String) : String := s.toLower
+
+/-- `Link.__eq__`: same or reversed end points -/
+def sameLink (l1 l2 : Link) : Bool :=
+  (l1.a == l2.a && l1.z == l2.z) || (l1.a == l2.z && l1.z == l2.a)
+
+/-- is there a pair of rows at different positions that are the same link?  (the code's double loop
+    `for l1 in links: for l2 in links: if l1 is not l2 and l1 == l2`; `sameLink` is symmetric, so
+    looking at ordered pairs is enough) -/
+def hasDuplicateLink (links : List Link) : Bool :=
+  !decide (links.Pairwise (fun l1 l2 => sameLink l1 l2 = false))
+
+def cities (nodes : List Node) : List String := nodes.map (·.city)
+
+/-- links touching a city, in row order (`links_by_city[c]`) -/
+def linksAt (links : List Link) (c : String) : List Link :=
+  links.filter (fun l => l.a == c || l.z == c)
+
+/-- Python appends a self-loop twice; the generators never produce one -/
+def degree (links : List Link) (c : String) : Nat :=
+  (links.map (fun l => (if l.a == c then 1 else 0) + (if l.z == c then 1 else 0))).foldl (· + ·) 0
+
+def eqptsAt (eqpts : List Eqpt) (c : String) : List Eqpt := eqpts.filter (fun e => e.a == c)
+
+def findNode (nodes : List Node) (c : String) : Option Node := nodes.find? (fun n => n.city == c)
+
+def linkExists (links : List Link) (a z : String) : Bool :=
+  links.any (fun l => (l.a == a && l.z == z) || (l.a == z && l.z == a))
+
+/-- a duplicate Eqpt row is a row with an earlier twin (same Node A and Node Z) -/
+def hasDuplicateEqpt (eqpts : List Eqpt) : Bool :=
+  !decide (eqpts.Pairwise (fun e1 e2 => (e1.a == e2.a && e1.z == e2.z) = false))
+
+def check (c : Bool) (e : XErr) : XR Unit := if c then .error e else .ok ()
+
+/-- `parse_excel`: two Nodes rows with the same city -/
+def badDuplicateCity (t : Table) : Bool := !decide (cities t.nodes).Nodup
+/-- `parse_excel`: a Links row naming a city that is not in Nodes -/
+def badLinkNode (t : Table) : Bool :=
+  t.links.any (fun l => !(cities t.nodes).contains l.a || !(cities t.nodes).contains l.z)
+/-- `sanity_check`: the same pair of cities in two Links rows (either orientation) -/
+def badDuplicateLink (t : Table) : Bool := hasDuplicateLink t.links
+/-- a city without any link -/
+def badUnreferenced (t : Table) : Bool := t.nodes.any (fun n => degree t.links n.city == 0)
+/-- an Eqpt row naming a city that is not in Nodes -/
+def badEqptNode (t : Table) : Bool :=
+  t.eqpts.any (fun e => !(cities t.nodes).contains e.a || !(cities t.nodes).contains e.z)
+/-- an Eqpt row for a pair of cities without link -/
+def badEqptLink (t : Table) : Bool := t.eqpts.any (fun e => !linkExists t.links e.a e.z)
+/-- two Eqpt rows for the same (Node A, Node Z) -/
+def badDuplicateEqpt (t : Table) : Bool := hasDuplicateEqpt t.eqpts
+/-- a site declared ILA with more than one Eqpt row -/
+def badDuplicateIla (t : Table) : Bool :=
+  t.nodes.any (fun n => n.ntype == "ILA" && (eqptsAt t.eqpts n.city).length > 1)
+
+/-- the checks of `parse_excel` and `sanity_check`, in the order the code performs them -/
+def sanity (t : Table) : XR Unit := do
+  check (badDuplicateCity t) .duplicateCity
+  check (badLinkNode t) .linkUnknownNode
+  check (badDuplicateLink t) .duplicateLink
+  check (badUnreferenced t) .unreferencedNode
+  check (badEqptNode t) .eqptUnknownNode
+  check (badEqptLink t) .eqptUnknownLink
+  check (badDuplicateEqpt t) .duplicateEqpt
+  check (badDuplicateIla t) .duplicateIla
+
+/-- degree correction: a site declared ILA whose degree is not 2 becomes a ROADM -/
+def correctType (links : List Link) (n : Node) : Node :=
+  if lower n.ntype == "ila" && degree links n.city != 2 then { n with ntype := "ROADM" } else n
+
+/-! ### numbers -/
+
+def toFloat? : J → Option Float
+  | .int i => some (Float.ofInt i)
+  | .flt b => some (Float.ofBits (UInt64.ofNat b))
+  | _ => none
+
+def jFlt (x : Float) : J := .flt x.toBits.toNat
+
+/-- `round(x, 3)`: ints are returned unchanged, floats are rounded half-even on their exact value -/
+def round3 : J → XR J
+  | .int i => pure (.int i)
+  | .flt b =>
+    match Round.decode b with
+    | none => pure (.flt b)
+    | some x =>
+      let r := Round.roundDigits x 3
+      match Round.nearestDyadic r 1000 with
+      | some (m, e) => pure (.flt (Round.encode x.neg m e))
+      | none => pure (.flt b)
+  | _ => throw (.py "TypeError")
+
+/-- Python truthiness of a cell value -/
+def truthy (j : J) : Bool := j.truthy
+
+/-- `convert_pmd_lineic(pmd, length, 'km')` = pmd * 1e-12 / sqrt(length * 1e3) -/
+def pmdLineic (pmd length : J) : XR J :=
+  match toFloat? pmd, toFloat? length with
+  | some p, some l => pure (jFlt (p * 1e-12 / Float.sqrt (l * 1e3)))
+  | _, _ => throw (.py "TypeError")
+
+/-- `sum((a, b)) / 2`, with the `except TypeError` fallback of `midpoint` -/
+def half2 (a b : J) : J :=
+  match a, b with
+  | .int x, .int y =>
+    -- exact integer sum, then true division
+    jFlt (Float.ofInt (x + y) / 2)
+  | _, _ =>
+    match toFloat? a, toFloat? b with
+    | some x, some y => jFlt ((0 + x + y) / 2)
+    | _, _ => .int 0
+
+def midpoint (na nb : Node) : J :=
+  match toFloat? na.lat, toFloat? nb.lat, toFloat? na.lon, toFloat? nb.lon with
+  | some _, some _, some _, some _ =>
+    .obj [("latitude", half2 na.lat nb.lat), ("longitude", half2 na.lon nb.lon)]
+  | _, _, _, _ => .obj [("latitude", .int 0), ("longitude", .int 0)]
+
+/-! ### elements -/
+
+structure Elem where
+  name : Name
+  body : Dict          -- everything except 'uid', in Python's key order
+  uidFirst : Bool := true   -- whether 'uid' is the first key (always, in this converter)
+  deriving Repr, Inhabited
+
+def location (n : Node) : J :=
+  .obj [("location", .obj [("city", .str n.city), ("region", n.region), ("latitude", n.lat), ("longitude", n.lon)])]
+
+/-- `s.split(' | ')` -/
+def splitBar (s : String) : List String := s.splitOn " | "
+
+/-- `silent_remove(l, '')`: the first empty string only -/
+def removeFirstEmpty : List String → List String
+  | [] => []
+  | x :: xs => if x == "" then xs else x :: removeFirstEmpty xs
+
+/-- `transform_data` -/
+def transformData : J → XR (Option (List Int))
+  | .flt b =>
+    match toFloat? (.flt b) with
+    | some f => pure (some [Int.ofNat f.toUInt64.toNat])   -- int(data) for the non-negative ids used
+    | none => pure none
+  | .str s => do
+    let ids ← (splitBar s).mapM (fun (x : String) => match Round.parseInt x.trimAscii.toString with
+      | some i => (pure i : XR Int)
+      | none => throw (XErr.py "ValueError"))
+    return some ids
+  | _ => pure none
+
+/-- the body of `create_roadm_element` (everything except the uid) -/
+def roadmBody (n : Node) (rows : List RoadmRow) : XR Dict := do
+  let mut body : Dict := []
+  let mut params : Option Dict := none
+  if n.preamp != "" || n.booster != "" then
+    params := some [("restrictions", .obj [
+      ("preamp_variety_list", .arr ((removeFirstEmpty (splitBar n.preamp)).map J.str)),
+      ("booster_variety_list", .arr ((removeFirstEmpty (splitBar n.booster)).map J.str))])]
+  let mine := rows.filter (fun r => r.a == n.city)
+  let mut tv : Option J := none
+  if !mine.isEmpty then
+    let mut p := params.getD []
+    let mut perDeg : Dict := []
+    let mut imps : Option (List J) := none
+    for r in mine do
+      let toNode := (Name.eqE n.city r.z).render
+      if r.target != .null then perDeg := perDeg.set toNode r.target
+      if r.fromDegrees != .null && r.impairmentIds != .null then
+        let fds := splitBar (asStr r.fromDegrees)
+        match ← transformData r.impairmentIds with
+        | none => throw (.py "TypeError")
+        | some ids =>
+          if fds.length != ids.length then throw .impairmentMismatch
+          let cur := imps.getD []
+          imps := some (cur ++ (fds.zip ids).map (fun fi =>
+            J.obj [("from_degree", .str (Name.eqW n.city fi.1).render), ("to_degree", .str toNode),
+                   ("impairment_id", .int fi.2)]))
+      if r.typeVariety != .null then tv := some r.typeVariety
+    p := p.set "per_degree_pch_out_db" (.obj perDeg)
+    match imps with
+    | some l => p := p.set "per_degree_impairments" (.arr l)
+    | none => pure ()
+    params := some p
+  match params with
+  | some p => body := body.set "params" (.obj p)
+  | none => pure ()
+  match tv with
+  | some v => body := body.set "type_variety" v
+  | none => pure ()
+  body := body.set "metadata" (location n)
+  body := body.set "type" (.str "Roadm")
+  return body
+
+/-- `create_roadm_element` -/
+def roadmElem (n : Node) (rows : List RoadmRow) : XR Elem := do
+  let body ← roadmBody n rows
+  return { name := .roadm n.city, body := body }
+
+def operational (s : EqptSide) : J :=
+  .obj [("gain_target", s.gain), ("delta_p", s.dp), ("tilt_target", s.tilt), ("out_voa", s.attOut), ("in_voa", s.attIn)]
+
+/-- `create_east_eqpt_element` -/
+def eastEqptElem (e : Eqpt) (n : Node) : Elem :=
+  let t := lower e.east.ampType
+  let body : Dict :=
+    if t != "" && t != "fused" then
+      [("metadata", location n), ("type", .str "Edfa"), ("type_variety", .str e.east.ampType),
+       ("operational", operational e.east)]
+    else if t == "" then
+      [("metadata", location n), ("type", .str "Edfa"), ("operational", operational e.east)]
+    else
+      [("metadata", location n), ("type", .str "Fused"), ("params", .obj [("loss", .int 0)])]
+  { name := .eqE e.a e.z, body := body }
+
+/-- `create_west_eqpt_element` ('type' is set before the other keys here) -/
+def westEqptElem (e : Eqpt) (n : Node) : Elem :=
+  let t := lower e.west.ampType
+  let body : Dict :=
+    if t != "" && t != "fused" then
+      [("metadata", location n), ("type", .str "Edfa"), ("type_variety", .str e.west.ampType),
+       ("operational", operational e.west)]
+    else if t == "" then
+      [("metadata", location n), ("type", .str "Edfa"), ("operational", operational e.west)]
+    else
+      [("metadata", location n), ("type", .str "Fused"), ("params", .obj [("loss", .int 0)])]
+  { name := .eqW e.a e.z, body := body }
+
+/-- the `params` of a fibre element -/
+def fiberParams (s : LinkSide) : XR Dict := do
+  let len ← round3 s.distance
+  let base : Dict := [("length", len), ("length_units", .str "km"), ("loss_coef", s.lineic),
+    ("con_in", s.conIn), ("con_out", s.conOut)]
+  if truthy s.pmd then return base ++ [("pmd_coef", ← pmdLineic s.pmd s.distance)] else return base
+
+/-- `create_east_fiber_element` / `create_west_fiber_element` -/
+def fiberElem (src dst : String) (s : LinkSide) (na nb : Node) : XR Elem := do
+  let params ← fiberParams s
+  return { name := .fiber src dst s.cable,
+           body := [("metadata", .obj [("location", midpoint na nb)]), ("type", .str "Fiber"),
+                    ("type_variety", s.fiber), ("params", .obj params)] }
+
+def simpleElem (nm : Name) (n : Node) (type : String) (extra : Dict := []) : Elem :=
+  { name := nm, body := [("metadata", location n), ("type", .str type)] ++ extra }
+
+def ilaOperational : Dict := [("operational", .obj [("gain_target", .null), ("tilt_target", .null)])]
+
+/-! ### connections -/
+
+/-- `fiber_dest_from_source` -/
+def neighbours (links : List Link) (c : String) : List String :=
+  (linksAt links c).map (fun l => if l.a == c then l.z else l.a)
+
+/-- `fiber_link(from, to)`: the first link at `from` joining the two cities -/
+def fiberLink (links : List Link) (src dst : String) : XR Name :=
+  match (linksAt links src).find? (fun l => (l.a == src || l.a == dst) && (l.z == src || l.z == dst)) with
+  | none => throw (.py "StopIteration")
+  | some l => if l.a == src then pure (.fiber l.a l.z l.east.cable) else pure (.fiber l.z l.a l.west.cable)
+
+/-- the ILA branch of the loop of `eqpt_in_city_to_city` (the loop variable `direction` is flipped
+    and stays flipped for the following rows) -/
+def ilaLoop (to : String) : List Eqpt → Bool → Option Name → Option Name
+  | [], _, acc => acc
+  | e :: es, east, _ =>
+    let east' := if e.z != to then !east else east
+    ilaLoop to es east' (some (if east' then Name.eqE e.a e.z else Name.eqW e.a e.z))
+
+/-- `eqpt_in_city_to_city(in_city, to_city, direction)`; `east = true` for direction 'east';
+    `none` stands for the empty string (no element in between) -/
+def eqptIn (t : Table) (n : Node) (to : String) (east : Bool) : Option Name :=
+  let es := eqptsAt t.eqpts n.city
+  let ty := lower n.ntype
+  let r : Option Name :=
+    if !es.isEmpty then
+      if ty == "roadm" then
+        (es.filter (fun e => e.z == to)).getLast?.map (fun e => if east then Name.eqE e.a e.z else Name.eqW e.a e.z)
+      else if ty == "ila" then ilaLoop to es east none
+      else none
+    else if ty == "ila" then some (if east then Name.ilaE n.city else Name.ilaW n.city)
+    else none
+  if ty == "fused" then some (if east then Name.fusedE n.city else Name.fusedW n.city) else r
+
+/-- `connect_eqpt` -/
+def connectEqpt (src : Name) (mid : Option Name) (dst : Name) : List (Name × Name) :=
+  match mid with
+  | some m => [(src, m), (m, dst)]
+  | none => [(src, dst)]
+
+def nth (l : List String) (i : Nat) : XR String :=
+  match l[i]? with
+  | some x => pure x
+  | none => throw (.py "IndexError")
+
+/-- `eqpt_connection_by_city` -/
+def connectionsAt (t : Table) (n : Node) : XR (List (Name × Name)) := do
+  let others := neighbours t.links n.city
+  let ty := lower n.ntype
+  if ty == "ila" || ty == "fused" then
+    let o0 ← nth others 0
+    let o1 ← nth others 1
+    -- i = 0: direction 'west'
+    let f0 ← fiberLink t.links o0 n.city
+    let t0 ← fiberLink t.links n.city o1
+    let c0 := connectEqpt f0 (eqptIn t n o0 false) t0
+    -- i = 1: direction 'east'
+    let f1 ← fiberLink t.links o1 n.city
+    let t1 ← fiberLink t.links n.city o0
+    let c1 := connectEqpt f1 (eqptIn t n o0 true) t1
+    return c0 ++ c1
+  else if ty == "roadm" then
+    let parts ← others.mapM (fun o => do
+      let fo ← fiberLink t.links n.city o
+      let fi ← fiberLink t.links o n.city
+      return connectEqpt (.roadm n.city) (eqptIn t n o true) fo ++ connectEqpt fi (eqptIn t n o false) (.roadm n.city))
+    return parts.flatten
+  else return []
+
+/-! ### the converter -/
+
+structure Out where
+  elements : List Elem
+  connections : List (Name × Name)
+  deriving Repr, Inhabited
+
+def isType (s : String) (n : Node) : Bool := lower n.ntype == s
+
+def nodeOf (nodes : List Node) (c : String) : XR Node :=
+  match findNode nodes c with
+  | some n => pure n
+  | none => throw (.py "KeyError")
+
+/-- `xls_to_json_data` after parsing -/
+def convert (t0 : Table) : XR Out := do
+  sanity t0
+  let nodes := t0.nodes.map (correctType t0.links)
+  let t : Table := { t0 with nodes := nodes }
+  let roadmNodes := nodes.filter (isType "roadm")
+  let fusedNodes := nodes.filter (isType "fused")
+  let ilaBare := nodes.filter (fun n => isType "ila" n && (eqptsAt t.eqpts n.city).isEmpty)
+  let roadmElems ← roadmNodes.mapM (fun n => roadmElem n t.roadms)
+  let eastFibers ← t.links.mapM (fun l => do
+    fiberElem l.a l.z l.east (← nodeOf nodes l.a) (← nodeOf nodes l.z))
+  let westFibers ← t.links.mapM (fun l => do
+    fiberElem l.z l.a l.west (← nodeOf nodes l.a) (← nodeOf nodes l.z))
+  let eastEq ← t.eqpts.mapM (fun e => do return eastEqptElem e (← nodeOf nodes e.a))
+  let westEq ← t.eqpts.mapM (fun e => do return westEqptElem e (← nodeOf nodes e.a))
+  let elements :=
+    roadmNodes.map (fun n => simpleElem (.trx n.city) n "Transceiver")
+    ++ roadmElems
+    ++ fusedNodes.map (fun n => simpleElem (.fusedW n.city) n "Fused")
+    ++ fusedNodes.map (fun n => simpleElem (.fusedE n.city) n "Fused")
+    ++ eastFibers ++ westFibers
+    ++ ilaBare.map (fun n => simpleElem (.ilaW n.city) n "Edfa" ilaOperational)
+    ++ ilaBare.map (fun n => simpleElem (.ilaE n.city) n "Edfa" ilaOperational)
+    ++ eastEq ++ westEq
+  let perCity ← nodes.mapM (connectionsAt t)
+  let trxCx := (roadmNodes.map (fun n => [(Name.trx n.city, Name.roadm n.city), (Name.roadm n.city, Name.trx n.city)])).flatten
+  return { elements := elements, connections := perCity.flatten ++ trxCx }
+
+/-- the JSON document -/
+def Out.toJson (o : Out) : J :=
+  .obj [("elements", .arr (o.elements.map (fun e => J.obj (("uid", .str e.name.render) :: e.body)))),
+        ("connections", .arr (o.connections.map (fun c =>
+          J.obj [("from_node", .str c.1.render), ("to_node", .str c.2.render)])))]
+
+/-! ### services (gnpy/tools/service_sheet.py) -/
+
+/-- `correct_cell_int_to_str` -/
+def intToStr : J → J
+  | .int i => .str (toString i)
+  | .flt b =>
+    match toFloat? (.flt b) with
+    | some f => .str (toString (if f < 0 then -(Int.ofNat (-f).toUInt64.toNat) else Int.ofNat f.toUInt64.toNat))
+    | none => .flt b
+  | j => j
+
+structure Request where
+  requestId : J
+  source : J
+  destination : J
+  trxType : J
+  mode : J
+  spacing : J
+  power : J
+  nbChannel : J
+  disjointFrom : J
+  nodesList : J
+  isLoose : Bool
+  pathBandwidth : J
+  deriving Repr, Inhabited
+
+/-- `Request(**kw)` -/
+def mkRequest (kw : Dict) : Request :=
+  let loose := match kw.get? "is_loose" with
+    | none => true
+    | some .null => true
+    | some (.str s) => s == "" || s == "yes" || s == "Yes" || s == "YES"
+    | some _ => false
+  { requestId := intToStr (cleanGet kw "request_id" .null),
+    source := cleanGet kw "source" .null,
+    destination := cleanGet kw "destination" .null,
+    trxType := intToStr (cleanGet kw "trx_type" .null),
+    mode := intToStr (cleanGet kw "mode" .null),
+    spacing := cleanGet kw "spacing" .null,
+    power := cleanGet kw "power" .null,
+    nbChannel := cleanGet kw "nb_channel" .null,
+    disjointFrom := intToStr (cleanGet kw "disjoint_from" (.str "")),
+    nodesList := cleanGet kw "nodes_list" (.str ""),
+    isLoose := loose,
+    pathBandwidth := cleanGet kw "path_bandwidth" .null }
+
+section units
+variable {α : Type} [Add α] [Sub α] [Mul α] [Div α] [Neg α] [NatCast α] [LT α] [LE α]
+  [DecidableLT α] [DecidableLE α] [Transc α]
+
+/-- GHz -> Hz -/
+def ghz2hz (x : α) : α := x * ((1000000000 : Nat) : α)
+/-- Gbit/s -> bit/s -/
+def gbps2bps (x : α) : α := x * ((1000000000 : Nat) : α)
+/-- dBm -> W: `db2lin(p) * 1e-3` -/
+def dbm2w (x : α) : α := db2lin x * (((1 : Nat) : α) / ((1000 : Nat) : α))
+end units
+
+structure ReqElem where
+  requestId : J
+  source : String
+  destination : String
+  bidir : Bool
+  trxType : J
+  mode : J
+  spacing : Float
+  power : Option Float
+  nbChannel : Option Int
+  disjointFrom : List String
+  nodesList : List String
+  loose : String
+  pathBandwidth : J
+  deriving Inhabited
+
+inductive SErr where
+  | service (what : String)
+  | py (kind : String)
+  deriving DecidableEq, Repr, Inhabited
+
+def reqAvail (modes : Option (List String)) : Except SErr (List String) :=
+  match modes with
+  | none => throw (.service "unknown-transceiver")
+  | some m => pure m
+
+def reqMode (avail : List String) : J → Except SErr J
+  | .null => pure J.null
+  | .str "" => pure J.null
+  | .str m => if avail.contains m then pure (J.str m) else throw (.service "unknown-mode")
+  | _ => throw (.service "unknown-mode")
+
+def reqSpacing (sp : J) : Except SErr Float :=
+  match toFloat? sp with
+  | some s => if sp.truthy then pure (ghz2hz s) else throw (.service "missing-spacing")
+  | none => if sp.truthy then throw (.py "TypeError") else throw (.service "missing-spacing")
+
+def reqPower : J → Except SErr (Option Float)
+  | .null => pure none
+  | p => match toFloat? p with
+    | some x => pure (some (dbm2w x))
+    | none => throw (.py "TypeError")
+
+def reqNb : J → Except SErr (Option Int)
+  | .null => pure none
+  | .int i => pure (some i)
+  | .flt b => match toFloat? (.flt b) with
+    | some f => pure (some (if f < 0 then -(Int.ofNat (-f).toUInt64.toNat) else Int.ofNat f.toUInt64.toNat))
+    | none => throw (.py "TypeError")
+  | _ => throw (.py "TypeError")
+
+def reqList (allowNull : Bool) : J → Except SErr (List String)
+  | .str "" => pure []
+  | .str s => pure (splitBar s)
+  | .null => if allowNull then pure [] else throw (.py "AttributeError")
+  | _ => throw (.py "AttributeError")
+
+def reqBandwidth : J → J
+  | .null => .int 0
+  | p => match toFloat? p with
+    | some x => jFlt (gbps2bps x)
+    | none => .null
+
+/-- `Request_element.__init__`; `modes` = formats available for the request's transceiver type
+    (`none` when the type is not in the library) -/
+def mkReqElem (r : Request) (modes : Option (List String)) (bidir : Bool) : Except SErr ReqElem := do
+  let avail ← reqAvail modes
+  let mode ← reqMode avail r.mode
+  let spacing ← reqSpacing r.spacing
+  let power ← reqPower r.power
+  let nb ← reqNb r.nbChannel
+  let dis ← reqList false r.disjointFrom
+  let nl ← reqList true r.nodesList
+  return { requestId := r.requestId, source := s!"trx {asStr r.source}", destination := s!"trx {asStr r.destination}",
+           bidir := bidir, trxType := r.trxType, mode := mode, spacing := spacing, power := power,
+           nbChannel := nb, disjointFrom := dis, nodesList := nl,
+           loose := if r.isLoose then "LOOSE" else "STRICT", pathBandwidth := reqBandwidth r.pathBandwidth }
+
+/-- `list.index(x)` -/
+def indexOf (l : List String) (x : String) : Nat := l.idxOf x
+
+/-- `Request_element.pathrequest` -/
+def pathRequest (e : ReqElem) : J :=
+  let te : Dict := [("technology", .str "flexi-grid"), ("trx_type", e.trxType), ("trx_mode", e.mode),
+    ("effective-freq-slot", .arr [.obj [("N", .null), ("M", .null)]]),
+    ("spacing", jFlt e.spacing),
+    ("max-nb-of-channel", match e.nbChannel with | some n => .int n | none => .null),
+    ("output-power", match e.power with | some p => jFlt p | none => .null),
+    ("path_bandwidth", e.pathBandwidth)]
+  let base : Dict := [("request-id", e.requestId), ("source", .str e.source), ("destination", .str e.destination),
+    ("src-tp-id", .str e.source), ("dst-tp-id", .str e.destination), ("bidirectional", .bool e.bidir),
+    ("path-constraints", .obj [("te-bandwidth", .obj te)])]
+  if e.nodesList.isEmpty then .obj base
+  else .obj (base ++ [("explicit-route-objects", .obj [("route-object-include-exclude",
+    .arr (e.nodesList.map (fun n => J.obj [("index", .int (indexOf e.nodesList n)),
+      ("explicit-route-usage", .str "route-include-ero"),
+      ("num-unnum-hop", .obj [("node-id", .str n), ("link-tp-id", .str "link-tp-id is not used"),
+        ("hop-type", .str e.loose)])])))])])
+
+/-- `Request_element.pathsync` -/
+def pathSync (e : ReqElem) : Option J :=
+  if e.disjointFrom.isEmpty then none
+  else some (.obj [("synchronization-id", e.requestId),
+    ("svec", .obj [("relaxable", .bool false), ("disjointness", .str "node link"),
+      ("request-id-number", .arr (e.requestId :: e.disjointFrom.map J.str))])])
+
+/-- the part of `correct_xls_route_list` that does not need the designed network: end points must be
+    transceivers of the topology; a leading source / trailing destination is dropped from the route;
+    a ROADM city becomes 'roadm <city>'; exact ROADM/amplifier uids are kept; transceiver and fibre
+    names and unknown names are dropped when loose and refused when strict.
+    `ambiguous` = names (ILA / fused cities) whose direction has to be chosen with the designed
+    network: not modelled, the route is then left to the monitor. -/
+def correctRoute (trx roadmCities roadmEdfaUids trxFiberUids ambiguous : List String) (e : ReqElem) :
+    Except SErr (Option ReqElem) := do
+  if !trx.contains e.source then throw (.service "unknown-source")
+  if !trx.contains e.destination then throw (.service "unknown-destination")
+  let l1 := match e.nodesList with
+    | x :: xs => if x == e.source then xs else x :: xs
+    | [] => []
+  let l2 := match l1.getLast? with
+    | some x => if x == e.destination then l1.dropLast else l1
+    | none => l1
+  if l2.any (fun n => ambiguous.contains n) then return none
+  let step (acc : List String) (n : String) : Except SErr (List String) :=
+    if trxFiberUids.contains n then
+      if e.loose == "LOOSE" then pure acc else throw (.service "unsupported-constraint")
+    else if roadmEdfaUids.contains n then pure (acc ++ [n])
+    else if roadmCities.contains n then pure (acc ++ [s!"roadm {n}"])
+    else if e.loose == "LOOSE" then pure acc else throw (.service "unknown-node")
+  let l3 ← l2.foldlM step []
+  return some { e with nodesList := l3 }
+
+end Gnpy.Xls
